@@ -303,6 +303,8 @@ def quote(s, mark='"'):
     :returns: Quoted string
     :rtype: ```str```
     """
+    if isinstance(s, (int, float, complex)):
+        return s  # a number (or a bool) is written as it is: only strings are quoted
     s = (
         s
         if isinstance(s, (str, type(None)))
